@@ -192,6 +192,8 @@ func allChecks() []*Check {
 				{Pkg: "client", Func: "VerifC04History", Quick: map[string]int{"K": 5}, Thorough: map[string]int{"K": 7}, Asserts: []string{"history:each-live-handler-once-removed-never"}},
 				{Pkg: "client", Func: "VerifC04Dispatch", OrderDep: true, Quick: map[string]int{"N": 2}, Thorough: map[string]int{"N": 3},
 					Asserts: []string{"each-once", "ran-exactly-the-registered-count", "late-registration-runs-next-time", "post-invariant"}},
+				{Pkg: "client", Func: "VerifC04Many", OrderDep: true, Quick: map[string]int{"SIZES": 9}, Thorough: map[string]int{"SIZES": 11},
+					Asserts: []string{"many:each-registered-handler-once", "many:late-registration-not-run-for-this-event", "many:next-event-each-live-handler-once-removed-never", "many:late-registration-runs-next-time"}, Note: "7..33 (thorough ..65) handlers on one event, foreground or background; any one of them removes itself or registers another from inside"},
 			},
 			Bounds:      map[string]string{"quick": "pre-state: any well-formed handler set over 2 distinct symbolic names (1-2 ASCII bytes) with 0..2 handlers each, built directly in the heap; one add (either name in any letter case, or a third name) / remove (any node) / snapshot; dispatch of an event in any letter case with self-removal, sibling removal and registration from inside a handler (a deadlock is a violation; the snapshot is observed by dispatching an event and seeing which handlers run); plus concrete-shape histories of 5 operations (add under either of two names in either case / remove any earlier handler / dispatch) from the empty set against a list model", "thorough": "0..3 handlers per name; histories of 7 operations"},
 			Outside:     []string{"more names/handlers than the bound (history length is unbounded by induction)", "true interleavings of racing Handle/Remove with dispatch: decided only through 'each operation is one critical section with every access inside it' (solver-checked on all paths) plus the textbook atomicity argument (not solver-checked)", "background-dispatch start time (as in the property)"},
@@ -205,6 +207,10 @@ func allChecks() []*Check {
 					Asserts: []string{"equal-on-entry", "private-from-original", "private-from-each-other", "original-unchanged", "each-handler-invoked-once"}},
 				{Pkg: "client", Func: "VerifC15Copies", Quick: map[string]int{"A": 1, "D": 2}, Thorough: map[string]int{"A": 1, "D": 3},
 					Asserts: []string{"equal-on-entry", "private-from-each-other"}, Note: "several events in a row; handlers keep and edit their lines after returning"},
+				{Pkg: "client", Func: "VerifC15Copies", Quick: map[string]int{"A": 1, "MANY": 1}, Thorough: map[string]int{"A": 2, "MANY": 1, "D": 2},
+					Asserts: []string{"equal-on-entry", "private-from-each-other", "each-handler-invoked-once"}, Note: "9 / 17 / 33 handlers in the foreground or background set"},
+				{Pkg: "client", Func: "VerifC15Copies", Quick: map[string]int{"A": 1, "RECOVER": 1}, Thorough: map[string]int{"A": 2, "RECOVER": 1, "D": 2},
+					Asserts: []string{"equal-on-entry", "private-from-each-other", "original-unchanged"}, Note: "one handler panics; the configured recovery function edits the line it is handed"},
 			},
 			Bounds:      map[string]string{"quick": "lines with 0..2 arguments (0..2 symbolic bytes each), Tags nil / empty / 1 / 2 entries; 0..1 internal, 0..2 foreground, 0..2 background handlers that keep their line and overwrite every mutable part of it on entry and again after returning; one event, and 2 events in a row (0..1 arguments) with storage compared across events", "thorough": "0..2 and 15 arguments (one byte each); 3 events in a row (0..1 arguments)"},
 			Outside:     []string{"more handlers / arguments than the bound", "true interleavings of the handler bodies: the deterministic run-to-completion schedule suffices because pairwise heap-disjointness of everything the handlers can reach through their argument is exactly what is asserted"},
